@@ -159,8 +159,13 @@ CHECKS = {
             "every result equals the result on the initial arguments; a call depends only on the slots it names; arc removal "
             "touches only its two slots.  These are true of any functional model by construction; what gives the check teeth is "
             "the run-time history correspondence: random interleavings on shared objects, byte-level argument snapshots around "
-            "every call, verbose on/off, re-execution in a fresh process, and every call compared with the stateless model.",
-            "Coq proof over the API state machine + run-time history correspondence (snapshots, fresh process, verbose)", "5 C20"),
+            "every call, verbose on/off, re-execution in a fresh process, and every call compared with the stateless model.  "
+            "REGENERATED: every public function is translated from the current source on every run and proved equal to a pure "
+            "function of its arguments' values for both values of verbose (under the translator's no-aliasing side condition), and "
+            "the progress printer Monitor.__call__ is proved never to raise when current = 0 or total <> 0 (monitor_returns, MiniPyE "
+            "with binary64 floats; the clock is an external function).",
+            "Coq proof over the API state machine; program-equivalence proofs over a regenerated deep embedding + run-time history "
+            "correspondence (snapshots, fresh process, verbose, calling conventions, memory layouts)", "5 C20"),
 }
 
 NOT_YET = {}
